@@ -6,6 +6,7 @@ loops at their invariants and records proof obligations (path condition => goal)
 Obligations are discharged later by solve.py; nothing in here decides a verdict."""
 import ast
 import itertools
+import time
 import z3
 
 from .sv import (V, VCError, Heap, Ref, NULL, birth, typeof, IntS, BoolS, StrS, Dyn, mk_int, mk_bool, mk_str, len_key, arr_key,
@@ -33,6 +34,12 @@ class RaiseSig(Exception):
         self.where = where
 
 
+def trace_id(vals, extra=0):
+    """stable short id of a decision vector (names of obligations/covers do not depend on the exploration order)"""
+    import hashlib
+    return hashlib.blake2b(bytes(1 if v else 0 for v in vals) + b"|%d" % extra, digest_size=6).hexdigest()
+
+
 class PathEnd(Exception):
     """This path is finished (infeasible, or cut after a loop-body check)."""
 
@@ -43,7 +50,7 @@ EXC_PARENTS = {
     "NotImplementedError": "RuntimeError", "RuntimeError": "Exception",
     "CMakeSyntaxException": "Exception", "CMakeSyntaxError": "SyntaxError", "SyntaxError": "Exception",
     "RecognitionException": "Exception", "UnicodeDecodeError": "ValueError", "OSError": "Exception",
-    "SystemExit": "BaseException", "Exception": "BaseException",
+    "SystemExit": "BaseException", "Exception": "BaseException", "OSError": "Exception", "FileExistsError": "OSError",
 }
 
 
@@ -151,23 +158,30 @@ class FunctionVerifier:
         self.max_paths = self.opts.get("max_paths", 4000)
         self.feas_timeout = self.opts.get("feas_timeout_ms", 1000)
         self.label = func.key + (f"[{recv_class}]" if recv_class else "")
+        self.replay_len = 0
+        self.stat = {"feas": 0, "feas_s": 0.0, "full": 0, "full_s": 0.0}
 
     # ------------------------------------------------------------ path exploration by decision replay
+    def _reset_path_state(self, prefix):
+        self.trace = []
+        self.prefix = prefix
+        self.pc = []
+        self.ctr = itertools.count()
+        self.path_notes = []
+        self._nonneg, self._nonneg_keep = set(), []
+        self._soft_ids, self.soft_mode = set(), False
+        self._branch_ids, self._proved_ids = set(), set()
+        self._fresh_ids, self._entry_ids, self._id_keep = set(), set(), []
+        self._owner_tag, self._entry_term_cache, self._binder_cache, self._lkind_tag = {}, {}, {}, {}
+        self._revealed = {}
+        self._newer_havoc, self._fresh_order = {}, {}
+
     def run(self):
+        """sequential exploration (depth first): flip the last decision that still has an alternative"""
         prefix = []
         while True:
-            self.trace = []
-            self.prefix = prefix
-            self.pc = []
-            self.ctr = itertools.count()
-            self.path_notes = []
-            self._nonneg, self._nonneg_keep = set(), []
-            self._soft_ids, self.soft_mode = set(), False
-            self._branch_ids, self._proved_ids = set(), set()
-            self._fresh_ids, self._entry_ids, self._id_keep = set(), set(), []
-            self._owner_tag, self._entry_term_cache, self._binder_cache, self._lkind_tag = {}, {}, {}, {}
-            self._revealed = {}
-            self._newer_havoc, self._fresh_order = {}, {}
+            self._reset_path_state(prefix)
+            self.replay_len = 0
             self.paths += 1
             if self.paths > self.max_paths:
                 raise VCError(f"{self.label}: more than {self.max_paths} paths")
@@ -177,7 +191,6 @@ class FunctionVerifier:
             except PathEnd as pe:
                 if getattr(pe, "cover", False):
                     self.add_cover()
-            # next prefix: flip the last decision that still has an alternative
             i = len(self.trace) - 1
             while i >= 0 and not self.trace[i][1]:
                 i -= 1
@@ -185,6 +198,26 @@ class FunctionVerifier:
                 break
             prefix = [list(x) for x in self.trace[:i]] + [[not self.trace[i][0], False]]
         return self.obligations
+
+    def run_one(self, prefix_vals):
+        """One path for the given decision prefix (parallel exploration, pargen.py).  Returns the prefixes of the
+        alternatives discovered BEYOND the given prefix; obligations met while the prefix is being replayed belong to
+        the path that first made those decisions and are not generated again."""
+        self._reset_path_state([[bool(v), False] for v in prefix_vals])
+        self.replay_len = len(prefix_vals)
+        self.paths += 1
+        try:
+            self.run_path()
+            self.add_cover()
+        except PathEnd as pe:
+            if getattr(pe, "cover", False):
+                self.add_cover()
+        out = []
+        vals = [v for v, _a in self.trace]
+        for i in range(len(prefix_vals), len(self.trace)):
+            if self.trace[i][1]:
+                out.append(vals[:i] + [not vals[i]])
+        return out
 
     def feasible(self, cond):
         """Branch pruning only (never a verdict).  Quantified facts and lambda definitions are left out: that
@@ -195,7 +228,11 @@ class FunctionVerifier:
             if not self._has_binder(c):
                 s.add(c)
         s.add(cond)
-        return s.check() != z3.unsat
+        t0 = time.time()
+        r = s.check() != z3.unsat
+        self.stat["feas"] += 1
+        self.stat["feas_s"] += time.time() - t0
+        return r
 
     def _has_binder(self, e):
         i = e.get_id()
@@ -223,7 +260,7 @@ class FunctionVerifier:
         base = [c for c in self.pc if c.get_id() not in self._proved_ids]
         hard = [c for c in base if c.get_id() not in self._soft_ids]
         nobranch = [c for c in base if c.get_id() not in self._branch_ids]
-        self.covers.append((f"{self.label}#cover@p{self.paths}", base, hard, nobranch))
+        self.covers.append((f"{self.label}#cover@d{trace_id([v for v, _a in self.trace])}", base, hard, nobranch))
 
     def feasible_full(self, cond, timeout=5000):
         s = z3.Solver()
@@ -231,7 +268,11 @@ class FunctionVerifier:
         for c in self.pc:
             s.add(c)
         s.add(cond)
-        return s.check() != z3.unsat
+        t0 = time.time()
+        r = s.check() != z3.unsat
+        self.stat["full"] += 1
+        self.stat["full_s"] += time.time() - t0
+        return r
 
     def choose(self, cond, exc_branch=None):
         """exc_branch: the truth value of `cond` that leads to an exception (None: ordinary branch).  Exception
@@ -337,9 +378,9 @@ class FunctionVerifier:
         # the same obligation is met again when a later path replays this prefix of decisions: execution is
         # deterministic, so (label, decisions so far, position) identifies it
         key = (kind, label, tuple(v for v, _a in self.trace), len(self.pc))
-        if key not in self._seen:
+        if key not in self._seen and len(self.trace) >= self.replay_len:
             self._seen.add(key)
-            name = f"{self.label}#{kind}.{label}@p{self.paths}"
+            name = f"{self.label}#{kind}.{label}@d{trace_id([v for v, _a in self.trace], len(self.pc))}"
             ob = Obligation(name, kind, [] if trivial else list(self.pc), goal, where, self.label, self.paths)
             ob.trivial = trivial
             self.obligations.append(ob)
@@ -368,6 +409,9 @@ class FunctionVerifier:
         self.heap = heap
         self.env = env
         self.handlers = []
+        self._marks = {}
+        self._loop_it = None
+        self._loop_entry = None
         # parameters
         ptypes = self.world.param_types(fn, self.recv_class)
         for pname, pty in ptypes.items():
@@ -759,6 +803,10 @@ class FunctionVerifier:
             i = self.checked_index(idx.t, n, tgt)
             self.list_store(obj, i, val)
         elif isinstance(tgt, (ast.Tuple, ast.List)):
+            tf = self.world.consts.get("TUPLE_FIELDS", {})
+            if val.kind() == "ref" and val.ty[1] in tf:
+                # an external value that is unpacked like a tuple (os.walk's (root, dirs, files)): ghost fields in order
+                val = V("tuple", [self.load_field(val, f, self.heap, tgt) for f in tf[val.ty[1]]])
             if val.kind() != "tuple" or len(val.t) != len(tgt.elts):
                 raise VCError(f"tuple assignment mismatch at {self.where(tgt)}")
             for t, v in zip(tgt.elts, val.t):
@@ -949,7 +997,10 @@ class FunctionVerifier:
     def list_len(self, l, heap):
         if isinstance(l.aux, Heap):
             heap = l.aux
-        return self.sel(heap.get(len_key(l.ty), IntS), l.t, len_key(l.ty))
+        n = self.sel(heap.get(len_key(l.ty), IntS), l.t, len_key(l.ty))
+        if z3.is_expr(n):
+            self.mark_nonneg(n)        # lengths of allocated lists are >= 0 (assumed wherever a list is loaded/created)
+        return n
 
     def set_list_len(self, l, n):
         a = self.heap.get(len_key(l.ty), IntS)
@@ -1033,8 +1084,13 @@ class FunctionVerifier:
     def mark_nonneg(self, t):
         self._nonneg.add(t.get_id())
         self._nonneg_keep.append(t)
+        ts = z3.simplify(t)
+        self._nonneg.add(ts.get_id())
+        self._nonneg_keep.append(ts)
 
     def is_nonneg(self, t):
+        if t.get_id() in self._nonneg:
+            return True
         t = z3.simplify(t)
         if z3.is_int_value(t):
             return t.as_long() >= 0
@@ -1211,8 +1267,11 @@ class FunctionVerifier:
             raise VCError(f"{self.label}: loop {ordinal} at {self.where(st)} has no invariant in its contract")
         # --- invariant on entry
         k0 = z3.IntVal(0)
+        n_pc_before = len(self.pc)
         saved_entry = getattr(self, "_loop_entry", None)
+        saved_it = getattr(self, "_loop_it", None)
         self._loop_entry = (dict(self.env), self.heap.copy())
+        self._loop_it = mode[1] if mode[0] in ("seq", "enum") else None
         self.check_inv(inv, k0, "init", st, mode)
         # --- havoc
         assigned = self.world.assigned_names(st)
@@ -1242,6 +1301,8 @@ class FunctionVerifier:
                  seq.t[0] if seq.kind() == "listval" else z3.Length(seq.t))
             more = k < n
         if self.choose(more):
+            if inv.lean:
+                self.pc = [c for c in self.pc[:n_pc_before] if not self._has_binder(c)] + self.pc[n_pc_before:]
             # bind the loop variable(s)
             if mode[0] == "range":
                 self.assign(st.target, mk_int(mode[1] + k))
@@ -1250,14 +1311,19 @@ class FunctionVerifier:
             elif mode[0] == "enum":
                 self.assign(st.target, V("tuple", [mk_int(k), self.seq_item(mode[1], k)]))
             else:
-                self.assign(st.target, self.ext_next(mode[1], k, st))
+                self.assign(st.target, self.world.ext_next(mode[1], k, st, self))
+            self._marks[f"iter{ordinal}"] = (dict(self.env), self.heap.copy())
             try:
                 self.exec_block(st.body)
             except ContinueSig:
                 pass
             except BreakSig:
+                self.check_step(inv, k, st, mode, True)
                 self._loop_entry = saved_entry
+                self._loop_it = saved_it
+                self._marks.pop(f"iter{ordinal}", None)
                 return            # leaves the loop, skips else
+            self.check_step(inv, k, st, mode, False)
             self.check_inv(inv, k + 1, "preserved", st, mode)
             pe = PathEnd()
             pe.cover = True
@@ -1269,6 +1335,7 @@ class FunctionVerifier:
                 self.assume(k == n)
             self.env["_k_final_%d" % ordinal] = mk_int(k)
             self._loop_entry = saved_entry
+            self._loop_it = saved_it
             self.exec_block(st.orelse)
 
     def assume_wellformed_local(self, v):
@@ -1287,9 +1354,23 @@ class FunctionVerifier:
             return v
         return mk_str(z3.SubString(seq.t, k, 1))
 
+    def check_step(self, inv, k, st, mode, broke):
+        if not inv.step_nodes:
+            return
+        ctx = self.inv_ctx(k, mode)
+        ctx.env["_broke"] = mk_bool(broke)
+        self.proving = True
+        try:
+            for label, clause in inv.step_nodes:
+                self.oblige(self.eval_spec_bool(clause, ctx), f"step{inv.ordinal}", label, self.where(st))
+        finally:
+            self.proving = False
+
     def inv_ctx(self, k, mode):
         env = dict(self.env)
         env["_k"] = mk_int(k)
+        if getattr(self, "_loop_it", None) is not None:
+            env["_it"] = self._loop_it
         ent = getattr(self, "_loop_entry", None)
         return Ctx(env, self.heap, spec=True, old=Ctx(self.pre_env, self.pre_heap, spec=True),
                    entry=Ctx(ent[0], ent[1], spec=True) if ent else None)
@@ -1413,6 +1494,13 @@ class FunctionVerifier:
         if ctx.spec and n in self.world.consts and isinstance(self.world.consts[n], (str, int)):
             c = self.world.consts[n]
             return mk_str(c) if isinstance(c, str) else mk_int(c)
+        if ctx.spec and self.contract is not None and n in self.contract.types and n not in ("self", "result"):
+            # a local of the function that is not bound on this path (e.g. assigned in a branch not taken): in a
+            # clause it stands for an arbitrary value of its declared type - the clause has to hold whatever it is
+            v = fresh_of(parse_type(self.contract.types[n]), "unbound_" + n, next(self.ctr))
+            if v.kind() in ("ref", "list"):
+                self.assume(z3.Or(v.t == NULL, birth(v.t) < self.heap.now))
+            return v
         g = self.world.global_value(self.func.module, n, self)
         if g is not None:
             return g
@@ -1672,7 +1760,30 @@ class FunctionVerifier:
             return z3.Or(*[item.t == z3.StringVal(s) for s in container.t]) if container.t else z3.BoolVal(False)
         raise VCError(f"'in' on {container.ty} not supported at {self.where(node)}")
 
+    def _mark_root(self, e, ctx):
+        r = e
+        while isinstance(r, (ast.Attribute, ast.Subscript)):
+            r = r.value
+        if ctx.spec and isinstance(r, ast.Name) and r.id in self._marks and r.id not in ctx.env:
+            return r.id
+        return None
+
+    def _retarget_mark(self, e, name):
+        if isinstance(e, ast.Attribute):
+            if isinstance(e.value, ast.Name) and e.value.id == name:
+                return ast.Attribute(value=ast.Name(id="old", ctx=ast.Load()), attr=e.attr, ctx=ast.Load())
+            return ast.Attribute(value=self._retarget_mark(e.value, name), attr=e.attr, ctx=ast.Load())
+        if isinstance(e, ast.Subscript):
+            return ast.Subscript(value=self._retarget_mark(e.value, name), slice=e.slice, ctx=ast.Load())
+        return e
+
     def ev_Attribute(self, e, ctx):
+        # iter<N>.<name>...: the state at the start of the current iteration of loop N
+        mk = self._mark_root(e, ctx)
+        if mk is not None:
+            m = self._marks[mk]
+            sub = Ctx(ctx.env, ctx.heap, spec=True, old=Ctx(m[0], m[1], spec=True), result=ctx.result, fuel=ctx.fuel)
+            return self.ev_Attribute(self._retarget_mark(e, mk), sub)
         # entry.<name>... in loop invariants: the state at loop entry
         if ctx.spec and self._rooted_at_old(e, "entry") and "entry" not in ctx.env:
             if ctx.entry is None:
@@ -1725,6 +1836,9 @@ class FunctionVerifier:
                 return V("callable", ("static", obj.t, e.attr))
             raise VCError(f"class attribute {obj.t}.{e.attr} not supported")
         if k == "module":
+            mc = {"os.curdir": ".", "os.pardir": "..", "os.sep": "/"}      # POSIX (stated in DESIGN.md: T-OS)
+            if obj.t + "." + e.attr in mc:
+                return mk_str(mc[obj.t + "." + e.attr])
             return V("module", obj.t + "." + e.attr)
         if k in ("str", "list"):
             return V("callable", ("builtin_method", obj, e.attr))
@@ -1758,6 +1872,11 @@ class FunctionVerifier:
         return e
 
     def ev_Subscript(self, e, ctx):
+        mk = self._mark_root(e, ctx)
+        if mk is not None:
+            m = self._marks[mk]
+            sub = Ctx(ctx.env, ctx.heap, spec=True, old=Ctx(m[0], m[1], spec=True), result=ctx.result, fuel=ctx.fuel)
+            return self.ev_Subscript(self._retarget_mark(e, mk), sub)
         if ctx.spec and self._rooted_at_old(e, "entry") and "entry" not in ctx.env:
             if ctx.entry is None:
                 raise VCError("entry used outside a loop invariant")
